@@ -886,6 +886,9 @@ class GrpcSim(Simulator):
         self.cases = {}
         gen_dir = os.path.join(self.scratch, "gen")
         import sys
+        from . import engine as _engine
+        if gen_dir not in _engine.EXTRA_CODE_ROOTS:
+            _engine.EXTRA_CODE_ROOTS.append(gen_dir)     # an exception out of generated code is the plugin's doing
         if gen_dir not in sys.path:
             sys.path.insert(0, gen_dir)
         for n in names:
